@@ -926,3 +926,166 @@ Proof.
       * destruct (C1 _ _ _ I2) as [A B]. destruct (IH1 s1 k n u1 H1 I1) as [_ D]. symmetry. apply (D u2 B A).
       * apply (IH2 s1 s2 k n u1 u2 H1 H2 I1 I2).
 Qed.
+
+(* ---- 6. invented uuids along histories ---- *)
+(* what comes from outside (constructor arguments, sheet obj_id, from_dict) carries no uuid
+   invented by THIS container: the modelling assumption behind "uuid4 is a counter" *)
+Definition instr_nofreshb (i : instr) : bool :=
+  match i with IRec _ _ (Some (Fresh _)) => false | _ => true end.
+
+Definition op_instrs (o : op) : list instr :=
+  match o with
+  | ORecordGroup n u => [IRec KGroup n u]
+  | ORecordFlow n u => [IRec KFlow n u]
+  | OAddFlow f => IRec KFlow (f_name f) (f_uuid f) :: map irec (flow_refs R Rc f)
+  | OAddCampaign x => map irec (campaign_refs x)
+  | OAddTrigger t => trigger_instrs t
+  | ORender => []
+  end.
+
+Definition op_nofresh (o : op) : Prop := forallb instr_nofreshb (op_instrs o) = true.
+Definition container_nofresh (c : container) : Prop := forallb instr_nofreshb (instrs_of R Rc c) = true.
+
+Lemma fresh_inv_init c : container_nofresh c -> fresh_inv R Rc (init c).
+Proof.
+  intros Hnf. constructor; cbn [init st_d st_c].
+  - apply dict_wf_empty.
+  - intros k n m H. destruct k; discriminate.
+  - intros k1 n1 k2 n2 m H. destruct k1; discriminate.
+  - intros k n m Hin. unfold container_nofresh in Hnf. rewrite forallb_forall in Hnf.
+    apply Hnf in Hin. discriminate.
+Qed.
+
+Lemma fresh_inv_ext st ud' c' : fresh_inv R Rc st -> ext (st_d st) ud' ->
+  (forall k n m, dget (sel k ud') n = Some (Some (Fresh m)) -> dget (sel k (st_d st)) n = Some (Some (Fresh m))) ->
+  (forall i, In i (instrs_of R Rc c') -> In i (instrs_of R Rc (st_c st)) \/ instr_nofreshb i = true) ->
+  fresh_inv R Rc {| st_d := ud'; st_c := c' |}.
+Proof.
+  intros [Hwf Hctr Hinj Hc] Hext Hold Hins. constructor; cbn [st_d st_c].
+  - intros k. apply (ext_nodup _ _ Hext), Hwf.
+  - intros k n m Hg. rewrite (ext_ctr _ _ Hext). apply (Hctr k n m), Hold, Hg.
+  - intros k1 n1 k2 n2 m H1 H2. apply (Hinj k1 n1 k2 n2 m); apply Hold; assumption.
+  - intros k n m Hin. destruct (Hins _ Hin) as [Hi|Hi]; [|discriminate].
+    apply (ext_bound _ _ Hext); [apply Hc, Hi|reflexivity].
+Qed.
+
+Lemma record_k_fresh k ud n u ud' : record_k k ud n u = Ok ud' -> instr_nofreshb (IRec k n u) = true ->
+  forall k' n' m, dget (sel k' ud') n' = Some (Some (Fresh m)) -> dget (sel k' ud) n' = Some (Some (Fresh m)).
+Proof.
+  intros H Hnf k' n' m Hg. apply (record_k_origin _ _ _ _ _ _ _ _ H) in Hg as [Hg|(-> & -> & <-)]; [exact Hg|].
+  discriminate.
+Qed.
+
+Lemma op_eq_render o : o = ORender \/ o <> ORender.
+Proof. destruct o; [right|right|right|right|right|left]; congruence. Qed.
+
+(* the record instructions of the container after a non-render operation *)
+Lemma step_instrs st o st' : o <> ORender -> step st o = Ok st' ->
+  forall i, In i (instrs_of R Rc (st_c st')) -> In i (instrs_of R Rc (st_c st)) \/ In i (op_instrs o).
+Proof.
+  intros Hne H i Hin. destruct o as [n u|n u|f|x|x|]; cbn in H; [| | | | |congruence].
+  - destruct (record_k KGroup (st_d st) n u); [|discriminate]. injection H as <-. left. exact Hin.
+  - destruct (record_k KFlow (st_d st) n u); [|discriminate]. injection H as <-. left. exact Hin.
+  - destruct (record_k KFlow (st_d st) (f_name f) (f_uuid f)); [|discriminate]. injection H as <-.
+    cbn [st_c] in Hin. rewrite in_instrs_of in Hin. rewrite in_instrs_of. cbn [groups flows campaigns triggers op_instrs] in *.
+    destruct Hin as [Hg|[(f' & Hf & ->)|[(r & Hr & ->)|Ht]]].
+    + left. left. exact Hg.
+    + apply in_app_iff in Hf as [Hf|[<-|[]]]; [left; right; left; exists f'; auto|right; left; reflexivity].
+    + unfold refs_of in Hr. cbn [flows campaigns triggers] in Hr. rewrite flat_map_app, <- app_assoc in Hr.
+      cbn [flat_map] in Hr. rewrite app_nil_r in Hr.
+      apply in_app_iff in Hr as [Hr|Hr]; [|apply in_app_iff in Hr as [Hr|Hr]].
+      * left. right. right. left. exists r. split; [|reflexivity]. unfold refs_of. rewrite !in_app_iff. auto.
+      * right. right. apply in_map. exact Hr.
+      * left. right. right. left. exists r. split; [|reflexivity]. unfold refs_of. rewrite !in_app_iff.
+        apply in_app_iff in Hr. tauto.
+    + left. right. right. right. exact Ht.
+  - injection H as <-. cbn [with_c st_c] in Hin. rewrite in_instrs_of in Hin. rewrite in_instrs_of.
+    cbn [groups flows campaigns triggers op_instrs] in *.
+    destruct Hin as [Hg|[Hf|[(r & Hr & ->)|Ht]]]; [left; left; exact Hg|left; right; left; exact Hf| |left; right; right; right; exact Ht].
+    unfold refs_of in Hr. cbn [flows campaigns triggers] in Hr. rewrite flat_map_app in Hr. cbn [flat_map] in Hr.
+    rewrite app_nil_r in Hr. rewrite !in_app_iff in Hr. destruct Hr as [Hr|[[Hr|Hr]|Hr]].
+    + left. right. right. left. exists r. split; [|reflexivity]. unfold refs_of. rewrite !in_app_iff. auto.
+    + left. right. right. left. exists r. split; [|reflexivity]. unfold refs_of. rewrite !in_app_iff. auto.
+    + right. apply in_map. exact Hr.
+    + left. right. right. left. exists r. split; [|reflexivity]. unfold refs_of. rewrite !in_app_iff. auto.
+  - injection H as <-. cbn [with_c st_c] in Hin. rewrite in_instrs_of in Hin. rewrite in_instrs_of.
+    cbn [groups flows campaigns triggers op_instrs] in *.
+    destruct Hin as [Hg|[Hf|[(r & Hr & ->)|(t & Ht & ->)]]]; [left; left; exact Hg|left; right; left; exact Hf| |].
+    + unfold refs_of in Hr. cbn [flows campaigns triggers] in Hr. rewrite flat_map_app in Hr. cbn [flat_map] in Hr.
+      rewrite app_nil_r in Hr. rewrite !in_app_iff in Hr. destruct Hr as [Hr|[Hr|[Hr|Hr]]].
+      * left. right. right. left. exists r. split; [|reflexivity]. unfold refs_of. rewrite !in_app_iff. auto.
+      * left. right. right. left. exists r. split; [|reflexivity]. unfold refs_of. rewrite !in_app_iff. auto.
+      * left. right. right. left. exists r. split; [|reflexivity]. unfold refs_of. rewrite !in_app_iff. auto.
+      * right. apply in_trigger_instrs. right. exists r. auto.
+    + apply in_app_iff in Ht as [Ht|[<-|[]]].
+      * left. right. right. right. exists t. auto.
+      * right. apply in_trigger_instrs. left. reflexivity.
+Qed.
+
+Lemma fresh_inv_step st o st' : fresh_inv R Rc st -> op_nofresh o -> step st o = Ok st' -> fresh_inv R Rc st'.
+Proof.
+  intros Hi Hnf H. destruct (op_eq_render o) as [->|Hne].
+  - cbn in H. rewrite validate_eq in H. apply (fresh_inv_validate R Rc _ _ Hi H).
+  - pose proof (step_instrs _ _ _ Hne H) as Hins.
+    assert (Hins' : forall i, In i (instrs_of R Rc (st_c st')) -> In i (instrs_of R Rc (st_c st)) \/ instr_nofreshb i = true).
+    { intros i Hin. destruct (Hins i Hin) as [Hl|Hr]; [left; exact Hl|right].
+      unfold op_nofresh in Hnf. rewrite forallb_forall in Hnf. apply Hnf, Hr. }
+    unfold op_nofresh in Hnf.
+    destruct o as [n u|n u|f|x|x|]; cbn in H; [| | | | |congruence].
+    + destruct (record_k KGroup (st_d st) n u) as [ud|e] eqn:E; [|discriminate]. injection H as <-.
+      cbn [op_instrs forallb] in Hnf. rewrite andb_true_r in Hnf.
+      apply (fresh_inv_ext _ _ _ Hi (record_k_ext _ _ _ _ _ E) (record_k_fresh _ _ _ _ _ E Hnf) Hins').
+    + destruct (record_k KFlow (st_d st) n u) as [ud|e] eqn:E; [|discriminate]. injection H as <-.
+      cbn [op_instrs forallb] in Hnf. rewrite andb_true_r in Hnf.
+      apply (fresh_inv_ext _ _ _ Hi (record_k_ext _ _ _ _ _ E) (record_k_fresh _ _ _ _ _ E Hnf) Hins').
+    + destruct (record_k KFlow (st_d st) (f_name f) (f_uuid f)) as [ud|e] eqn:E; [|discriminate]. injection H as <-.
+      cbn [op_instrs forallb] in Hnf. apply andb_true_iff in Hnf as [Hnf _].
+      apply (fresh_inv_ext _ _ _ Hi (record_k_ext _ _ _ _ _ E) (record_k_fresh _ _ _ _ _ E Hnf) Hins').
+    + injection H as <-. apply (fresh_inv_ext _ _ _ Hi (ext_refl _) (fun _ _ _ h => h) Hins').
+    + injection H as <-. apply (fresh_inv_ext _ _ _ Hi (ext_refl _) (fun _ _ _ h => h) Hins').
+Qed.
+
+Lemma fresh_inv_run ops : forall st st', fresh_inv R Rc st -> Forall op_nofresh ops -> run ops st = Ok st' ->
+  fresh_inv R Rc st'.
+Proof.
+  unfold run. induction ops as [|o r IH]; intros st st' Hi Hok H; cbn in H.
+  - injection H as <-. exact Hi.
+  - inversion Hok as [|x l Ho Hr]; subst. destruct (step st o) as [st1|e] eqn:E; [|discriminate].
+    apply (IH st1 st' (fresh_inv_step _ _ _ Hi Ho E) Hr H).
+Qed.
+
+(* the statement of 6 for whole histories that start from a fresh container *)
+Definition fresh_ok (st : state) : Prop :=
+  (forall k n m, dget (sel k (st_d st)) n = Some (Some (Fresh m)) -> m < ctr (st_d st))
+  /\ (forall k1 n1 k2 n2 m, dget (sel k1 (st_d st)) n1 = Some (Some (Fresh m)) ->
+        dget (sel k2 (st_d st)) n2 = Some (Some (Fresh m)) -> k1 = k2 /\ n1 = n2)
+  /\ (forall k n m, In (k, (n, Some (Fresh m))) (occs (st_c st)) -> dget (sel k (st_d st)) n = Some (Some (Fresh m)))
+  /\ (forall k1 n1 k2 n2 m, In (k1, (n1, Some (Fresh m))) (occs (st_c st)) ->
+        In (k2, (n2, Some (Fresh m))) (occs (st_c st)) -> k1 = k2 /\ n1 = n2).
+
+Lemma fresh_inv_ok st : fresh_inv R Rc st -> fresh_ok st.
+Proof.
+  intros Hi. pose proof Hi as [Hwf Hctr Hinj Hc]. split; [exact Hctr|]. split; [exact Hinj|]. split.
+  - intros k n m Hin. rewrite occs_eq in Hin. apply in_occs in Hin. apply Hc, Hin.
+  - intros k1 n1 k2 n2 m H1 H2. rewrite occs_eq in H1, H2. apply (fresh_inv_occs R Rc _ _ _ _ _ _ Hi H1 H2).
+Qed.
+
+Lemma fresh_uuids_unique c ops st' : container_nofresh c -> Forall op_nofresh ops ->
+  run ops (init c) = Ok st' -> fresh_ok st'.
+Proof.
+  intros Hc Hops H. apply fresh_inv_ok. apply (fresh_inv_run ops (init c) st' (fresh_inv_init _ Hc) Hops H).
+Qed.
+
+(* what one validate invents is new, and it invents only for names that have no uuid yet *)
+Lemma invented_is_new st st' k n m : fresh_inv R Rc st -> validate st = Ok st' ->
+  dget (sel k (st_d st')) n = Some (Some (Fresh m)) -> ctr (st_d st) <= m ->
+  (forall k0 n0, dget (sel k0 (st_d st)) n0 <> Some (Some (Fresh m)))
+  /\ (forall k0 n0, ~ In (k0, (n0, Some (Fresh m))) (occs (st_c st)))
+  /\ (forall u, truthy u = true -> ~ explicit_source st k n u).
+Proof.
+  intros Hi H Hg Hm. rewrite validate_eq in H.
+  destruct (invented_new_S R Rc _ _ _ _ _ Hi H Hg Hm) as [A B]. split; [exact A|]. split.
+  - intros k0 n0. rewrite occs_eq. apply B.
+  - intros u Ht Hs. apply source_eq in Hs. pose proof (validate_binds R Rc _ _ _ _ _ H Ht Hs) as Hb.
+    rewrite Hg in Hb. injection Hb as <-. destruct Hs as [Hs|Hs]; [apply (B k n Hs)|apply (A k n Hs)].
+Qed.
